@@ -200,7 +200,14 @@ pub fn verdict(text: &str, case: &SynthCase, stim: &Stimulus, library: Library, 
     let sr = match synthesize(&a, library, ram) {
         Synth::Ok(r) => r,
         Synth::Rejected(why) => return Verdict::Skip(format!("synthesizer rejects the design ({why})")),
-        Synth::Panic(msg) => return Verdict::Skip(format!("synthesizer panics ({msg})")),
+        Synth::Panic(msg) => {
+            // development aid: keep the text of a design that makes the synthesizer panic
+            if let Ok(dir) = std::env::var("C19_PANIC_DIR") {
+                let _ = std::fs::create_dir_all(&dir);
+                let _ = std::fs::write(format!("{dir}/{:016x}.veryl", hash_str(text)), format!("// {msg}\n// {}\n{text}", case.options_json()));
+            }
+            return Verdict::Skip(format!("synthesizer panics ({msg})"));
+        }
     };
     let rtl = match run_rtl(&a, stim) {
         Ok(t) => t,
@@ -385,7 +392,7 @@ pub fn evaluate(case: &SynthCase) -> Outcome {
 }
 
 /// A disagreement: re-examine, minimise, name.
-fn explain(case: &SynthCase, gate: &GateModule, mm: Mismatch) -> Outcome {
+pub fn explain(case: &SynthCase, gate: &GateModule, mm: Mismatch) -> Outcome {
     let oname = case.stim.outputs[mm.output].name.clone();
     let head = format!(
         "output {oname} after step {}: gate netlist {:x} (X mask {:x}), RTL simulator {:x}  [library {}, {:?}]",
